@@ -30,7 +30,7 @@ def snapshot(results):
     return out
 
 
-def make_results(d, lang, shape, batch, nbest, n, minimal=False):
+def make_results(d, lang, shape, batch, nbest, n, minimal=False, extra=False):
     from depccg.tree import ScoredTree, Tree
     from depccg.cat import Category
     res = []
@@ -43,6 +43,10 @@ def make_results(d, lang, shape, batch, nbest, n, minimal=False):
                 return 'w%d' % i
             tb = TreeBuilder(d, lang, word=w, heads=(k % 2 == 0), labels=s + k, prefix='t%d_%d' % (s, k))
             t = tb.build(shape)
+            if extra:
+                # tokens carrying further attributes, some named like the formats' own fields
+                for i, leaf in enumerate(t.leaves):
+                    leaf.children[0].update(start=str(10 + i), span='2', cat='X', id='tok%d' % i, misc='m')
             if minimal:
                 # tokens as the readers / the failure placeholder build them: only the word is known
                 for leaf in t.leaves:
@@ -57,12 +61,12 @@ def make_results(d, lang, shape, batch, nbest, n, minimal=False):
     return res
 
 
-def h_seq(d, lang, shape, batch, nbest, n, seqlen, first=None, minimal=False):
+def h_seq(d, lang, shape, batch, nbest, n, seqlen, first=None, minimal=False, extra=False):
     from depccg.printer import to_string
     from depccg.lang import set_global_language_to
     set_global_language_to(lang)
     fmts = FORMATS[lang]
-    res = make_results(d, lang, shape, batch, nbest, n, minimal)
+    res = make_results(d, lang, shape, batch, nbest, n, minimal, extra)
     snap0 = snapshot(res)
     out = None
     seq = []
@@ -75,7 +79,7 @@ def h_seq(d, lang, shape, batch, nbest, n, seqlen, first=None, minimal=False):
             return ('render-raises.%s.after-%s:%s' % (f, '+'.join(seq[:-1]) or 'nothing', type(e).__name__),)
         if snapshot(res) != snap0:
             return ('mutated-by.' + f, seq)
-    fresh = make_results(_Again(d), lang, shape, batch, nbest, n, minimal)
+    fresh = make_results(_Again(d), lang, shape, batch, nbest, n, minimal, extra)
     try:
         out2 = to_string(fresh, format=seq[-1])
     except Exception as e:
@@ -128,6 +132,8 @@ def obligations(tier):
                 if (batch, nbest) == (1, 1) and s in (SHAPES[1][0], SHAPES[2][0]):
                     yield Obligation('C18.seq[%s,%s,word-only tokens + failed sentence,len=2]' % (lang, shape_name(s)), 'h_seq',
                                      dict(lang=lang, shape=s, batch=1, nbest=1, n=0, seqlen=2, minimal=True), cost=10)
+                    yield Obligation('C18.seq[%s,%s,tokens with extra attributes (start span cat id),len=2]' % (lang, shape_name(s)), 'h_seq',
+                                     dict(lang=lang, shape=s, batch=1, nbest=1, n=0, seqlen=2, extra=True), cost=10)
                 if (batch, nbest) == (1, 1):
                     for first in (['jigg_xml', 'xml', 'json', 'prolog'] if q else FORMATS[lang]):
                         if first in FORMATS[lang]:
